@@ -1,0 +1,20 @@
+//go:build verif
+
+package responseassembler
+
+import (
+	"github.com/libp2p/go-libp2p/core/peer"
+)
+
+// TrackingEmpty reports whether no link-tracking state at all is held for
+// peer p. Verification hook: compiled only with the `verif` build tag.
+func (ra *ResponseAssembler) TrackingEmpty(p peer.ID) bool {
+	prs := ra.GetProcess(p).(*peerLinkTracker)
+	prs.linkTrackerLk.RLock()
+	defer prs.linkTrackerLk.RUnlock()
+	return prs.linkTracker.Empty() &&
+		len(prs.altTrackers) == 0 &&
+		len(prs.dedupKeys) == 0 &&
+		len(prs.blockSentCount) == 0 &&
+		len(prs.skipFirstBlocks) == 0
+}
